@@ -1,0 +1,58 @@
+//go:build verif
+
+// Contracts for contract-based deductive verification (checked by /verif/govc).
+// This file is comment-only and compiled only with the build tag "verif".
+
+package topologyaware
+
+// ---- C16: CPU-less PMEM/HBM nodes are attached to exactly the pools that hold one of their closest DRAM nodes ----
+// getClosestSpecialMem(mems): the set of memory-only PMEM and HBM nodes one of whose closest CPU-bearing DRAM nodes
+// is in mems.  What sysfs reports is ASSUMED through the interface contracts below: FilterNodes returns some set,
+// ClosestNodes(id, DRAM, has-local-CPUs) - the only filter combination this package uses - returns freshly built
+// sets, the first of which is the abstract set c0(sys, id) (hasC: there is one).
+//@ pure hasC(s system.System, id idset.ID) bool
+//@ pure c0(s system.System, id idset.ID) arr[idset.ID]bool
+//@ iface github.com/containers/nri-plugins/pkg/sysfs.System.ClosestNodes
+//@   ensures (len(result0) > 0) == hasC(self, arg0)
+//@   ensures len(result0) > 0 ==> result0[0] != nil && newobj(result0[0]) && dom(result0[0]) == c0(self, arg0)
+//@ iface github.com/containers/nri-plugins/pkg/sysfs.System.FilterNodes
+//@   ensures newobj(result)
+//@ pure near(p *policy, mems idset.IDSet, id idset.ID) bool = hasC(p.sys, id) && (exists cid idset.ID :: c0(p.sys, id)[cid] && cid in mems)
+
+//@ func (*policy).getClosestSpecialMem tags=C16
+//@   requires p != nil && p.sys != nil
+//@   ensures[C16] forall x idset.ID :: x in result ==> (x in $t26 || x in $t50) && near(p, mems, x)
+//@   ensures[C16] forall x idset.ID :: (x in $t26 || x in $t50) && near(p, mems, x) ==> x in result
+//@ loop 0 in (*policy).getClosestSpecialMem at "range p.sys.FilterNodes(nodeIDs, pmemNoCPU...).Members()"
+//@   modifies special[*]
+//@   invariant special != nil && newobj(special) && special != mems
+//@   invariant forall x idset.ID :: x in special ==> x in $t26 && near(p, mems, x)
+//@   invariant forall j int :: 0 <= j && j <= rangeindex && near(p, mems, $t27[j]) ==> $t27[j] in special
+//@   invariant forall x idset.ID :: x in $t26 ==> 0 <= indexin($t27, x) && indexin($t27, x) < len($t27) && $t27[indexin($t27, x)] == x
+//@ loop 1 in (*policy).getClosestSpecialMem at "range closest[0].Members()"
+//@   modifies special[*]
+//@   invariant special != nil && newobj(special) && special != mems && special != $t54
+//@   invariant 0 <= $t30 && $t30 < len($t27) && id == $t27[$t30] && id in $t26 && hasC(p.sys, id) && dom($t54) == c0(p.sys, id)
+//@   invariant forall x idset.ID :: x in special ==> x in $t26 && near(p, mems, x)
+//@   invariant forall j int :: 0 <= j && j < $t30 && near(p, mems, $t27[j]) ==> $t27[j] in special
+//@   invariant forall k int :: 0 <= k && k <= rangeindex && ($t55[k] in mems) ==> id in special
+//@   invariant forall cid idset.ID :: c0(p.sys, id)[cid] ==> 0 <= indexin($t55, cid) && indexin($t55, cid) < len($t55) && $t55[indexin($t55, cid)] == cid
+//@   invariant forall x idset.ID :: x in $t26 ==> 0 <= indexin($t27, x) && indexin($t27, x) < len($t27) && $t27[indexin($t27, x)] == x
+//@ assert[C16] in (*policy).getClosestSpecialMem at "range p.sys.FilterNodes(nodeIDs, hbmNoCPU...).Members()": forall x idset.ID :: x in $t26 && near(p, mems, x) ==> x in special
+//@ loop 2 in (*policy).getClosestSpecialMem at "range p.sys.FilterNodes(nodeIDs, hbmNoCPU...).Members()"
+//@   modifies special[*]
+//@   invariant special != nil && newobj(special) && special != mems
+//@   invariant forall x idset.ID :: x in special ==> (x in $t26 || x in $t50) && near(p, mems, x)
+//@   invariant forall x idset.ID :: x in $t26 && near(p, mems, x) ==> x in special
+//@   invariant forall j int :: 0 <= j && j <= rangeindex && near(p, mems, $t51[j]) ==> $t51[j] in special
+//@   invariant forall x idset.ID :: x in $t50 ==> 0 <= indexin($t51, x) && indexin($t51, x) < len($t51) && $t51[indexin($t51, x)] == x
+//@ loop 3 in (*policy).getClosestSpecialMem at "range closest[0].Members()"
+//@   modifies special[*]
+//@   invariant special != nil && newobj(special) && special != mems && special != $t90
+//@   invariant 0 <= $t71 && $t71 < len($t51) && id == $t51[$t71] && id in $t50 && hasC(p.sys, id) && dom($t90) == c0(p.sys, id)
+//@   invariant forall x idset.ID :: x in special ==> (x in $t26 || x in $t50) && near(p, mems, x)
+//@   invariant forall x idset.ID :: x in $t26 && near(p, mems, x) ==> x in special
+//@   invariant forall j int :: 0 <= j && j < $t71 && near(p, mems, $t51[j]) ==> $t51[j] in special
+//@   invariant forall k int :: 0 <= k && k <= rangeindex && ($t91[k] in mems) ==> id in special
+//@   invariant forall cid idset.ID :: c0(p.sys, id)[cid] ==> 0 <= indexin($t91, cid) && indexin($t91, cid) < len($t91) && $t91[indexin($t91, cid)] == cid
+//@   invariant forall x idset.ID :: x in $t50 ==> 0 <= indexin($t51, x) && indexin($t51, x) < len($t51) && $t51[indexin($t51, x)] == x
